@@ -246,7 +246,7 @@ pub fn generate(rng: &mut Rng, p: &Pools, mode: &str) -> Workload {
     let n_threads = rng.range(2, 4) as usize;
     let coords_ok = !c10 && rng.chance(1, 5);
     let n_prebuilt = if c10 { 0 } else { rng.below(4) as u32 };
-    let prebuilt: Vec<(String, Ctx)> = (0..n_prebuilt)
+    let mut prebuilt: Vec<(String, Ctx)> = (0..n_prebuilt)
         .map(|_| {
             let c = gen_ctx(rng, p, false);
             (gen_expr_opt(rng, p, &c, false), c)
@@ -330,6 +330,26 @@ pub fn generate(rng: &mut Rng, p: &Pools, mode: &str) -> Workload {
             })
             .collect();
     }
+    // swarm, sizes: one workload in forty makes one shared value "hot": a thread walks tens of thousands of its
+    // intervals (2^12 .. 2^15 computed schedules on one value and its clones) before and while the others ask it
+    // the ordinary questions; the references are computed on fresh values
+    if !c10 && rng.chance(1, 40) && !p.dense_exprs.is_empty() {
+        // (no explicit year: such an expression stops changing after it, and the end of its last interval is
+        // looked for up to year 9999)
+        let open_ended = |v: &Vec<String>| -> Vec<String> { v.iter().filter(|e| !e.contains("20") && !e.contains("19")).cloned().collect() };
+        let (lossy, dense) = (open_ended(&p.lossy_normal_exprs), open_ended(&p.dense_exprs));
+        let e = if !lossy.is_empty() && rng.chance(1, 2) { rng.pick(&lossy).clone() } else if !dense.is_empty() { rng.pick(&dense).clone() } else { "Mo-Fr 09:00-17:00".to_string() };
+        let t = p.instants[rng.usize_below(p.instants.len().min(8))];
+        prebuilt.push((e, Ctx::Default));
+        let i = prebuilt.len() as u32 - 1;
+        threads[0].insert(0, Op::SharedIter { i, t, n: rng.range(20_000, 45_000) as u32 });
+        for th in threads.iter_mut() {
+            for _ in 0..rng.range(1, 3) {
+                let t2 = t + rng.range(0, 400) * 86_400 + rng.range(0, 86_399);
+                th.push(if rng.chance(1, 2) { Op::Shared { i, t: t2 } } else { Op::SharedIter { i, t: t2, n: rng.range(2, 12) as u32 } });
+            }
+        }
+    }
     let n_threads = threads.len();
     // swarm, sizes: one workload in three hundred makes tens of thousands of distinct comments / expressions
     if !c10 && rng.chance(1, 300) {
@@ -374,8 +394,12 @@ pub fn generate(rng: &mut Rng, p: &Pools, mode: &str) -> Workload {
         let sun = sun || open_ended.is_empty();
         let t0 = *rng.pick(&p.instants);
         let first = rng.usize_below(p.sun_coords.len());
-        let step = *rng.pick(&[16i64, 32, 32, 64]);
+        let step = *rng.pick(&[16i64, 32, 32, 64, 1, 4, 8]);
+        // (either direction: the first thread may well be the one in the latest year)
+        let backwards = rng.chance(1, 2);
+        let n_th = threads.len();
         for (i, th) in threads.iter_mut().enumerate() {
+            let i = if backwards && !sun { n_th - 1 - i } else { i };
             let (c, t) = if sun {
                 let co = p.sun_coords[(first + i) % p.sun_coords.len()];
                 (Ctx::TzCoords("UTC".into(), co.0, co.1), t0)
